@@ -136,18 +136,22 @@ def cleanLoop (isNode isTrx : V → Bool) : List (V × Bool) → List (V × Bool
 
 def dropLast {α : Type} (l : List α) : List α := l.take (l.length - 1)
 
+/-- "silently remove source and dest nodes from the list" (first entry = source, then last entry = destination) -/
+def stripEnds (s t : V) (route : List (V × Bool)) : List (V × Bool) :=
+  let r1 := match route with
+    | (x, _) :: rest => if x = s then rest else route
+    | [] => route
+  match r1.getLast? with
+  | some (x, _) => if x = t then dropLast r1 else r1
+  | none => r1
+
 def correctRouteList (isNode isTrx : V → Bool) (s t : V) (route : List (V × Bool)) :
     Except CleanErr (List (V × Bool)) :=
   if !(isTrx s) then .error .sourceNotTrx
   else if !(isTrx t) then .error .destNotTrx
   else
-    let r1 := match route with
-      | (x, _) :: rest => if x = s then rest else route
-      | [] => route
-    let r2 := match r1.getLast? with
-      | some (x, _) => if x = t then dropLast r1 else r1
-      | none => r1
-    cleanLoop isNode isTrx r2 r2
+    let r := stripEnds s t route
+    cleanLoop isNode isTrx r r
 
 /-! ### `explicit_path` (request.py l.1278-1311, repaired: the shortcut must honour the include list and be a walk) -/
 
